@@ -1456,6 +1456,7 @@ package sod
 //@ assume [regexp-compiled] uuidRegexp != nil
 //@ ghost src garray[string]int := src
 //@ ensures [C11 ufd.error] imp(err != nil, uuids == nil)
+//@ ensures [C11 ufd.no-dir] imp(err != nil && isNotExist(err), forallk(n, string, FSk[dir + "/" + n] == 0))
 //@ ensures [C11 ufd.sound] imp(err == nil, uuids != nil && fresh(uuids) && forallk(u, string, imp(has(uuids, u), uuids[u] && uuidShaped(u) && FSk[dir + "/" + entryName(cast(src[u], os.DirEntry))] != 0 && prefixOf(entryName(cast(src[u], os.DirEntry))) == u)))
 //@ ensures [C11 ufd.complete] imp(err == nil, forallk(n, string, imp(FSk[dir + "/" + n] != 0 && uuidShaped(prefixOf(n)), has(uuids, prefixOf(n)))))
 //@ loop 1 ghost src garray[string]int
@@ -1527,3 +1528,30 @@ package sod
 //@ loop 2 invariant [visited-ok] forallk(p, string, imp(has(target, p) && visited(p), has(m, p)))
 //@ modifies nothing
 //@ allocates Elem[interface{}], FieldDescriptor.Path, FieldDescriptor.Type, FieldDescriptor.Constraints
+
+// reflection: assumed contract (bounded stand-in of C17)
+//@ func FieldDescriptors
+//@ serves C17 C11
+//@ trusted "reflection-bodied (recFieldDescriptors): one descriptor per scalar leaf field of the struct, keyed by its path"
+//@ requires from != nil
+//@ ensures desc != nil && fresh(desc) && forallk(p, string, has(desc, p) == fieldok(dyntype(from), p) && imp(has(desc, p), desc[p].Path == p && desc[p].Type == ftypeOf(dyntype(from), p)))
+//@ modifies nothing
+//@ allocates MapDom[string,FieldDescriptor], MapVal[string,FieldDescriptor], MapCard[string,FieldDescriptor]
+
+//@ func (*Schema).control
+//@ serves C11 C17 C19 C05
+//@ requires [wf] s != nil && s.db != nil && s.object != nil && s.ObjectIndex != nil && decodedOK(s.ObjectIndex) && s.ObjectIndex.otype == dyntype(s.object)
+//@ let dir string := cdirf(s.db.root, itemOf(dyntype(s.object)))
+//@ let idx *objIndex := s.ObjectIndex
+//@ ghost w garray[string]int := uuidsFromDir_src
+//@ ensures [C11 C19 ctl.consistent] imp(err == nil || errIs(err, ErrIndexCorrupted), idxConsistent(idx))
+//@ ensures [C17 ctl.structure] imp(err == nil || errIs(err, ErrIndexCorrupted), forallk(p, string, has(s.Fields, p) == fieldok(dyntype(s.object), p) && imp(has(s.Fields, p), s.Fields[p].Path == p && s.Fields[p].Type == ftypeOf(dyntype(s.object), p))))
+//@ ensures [C17 ctl.structure-class] imp(!forallk(p, string, has(s.Fields, p) == fieldok(dyntype(s.object), p)), errIs(err, ErrStructureChanged))
+//@ ensures [C11 ctl.files-indexed] imp(err == nil, forallk(n, string, imp(FSk[dir + "/" + n] != 0 && uuidShaped(prefixOf(n)), has(idx.uuids, prefixOf(n)))))
+//@ ensures [C11 ctl.indexed-have-files] imp(err == nil, forallk(u, string, imp(has(idx.uuids, u), uuidShaped(u) && FSk[dir + "/" + entryName(cast(w[u], os.DirEntry))] != 0 && prefixOf(entryName(cast(w[u], os.DirEntry))) == u)))
+//@ ensures [C17 ctl.readonly] FSk == old(FSk) && FSc == old(FSc)
+//@ loop 1 invariant [disk-indexed] forallk(u, string, imp(has(uuids, u) && visited(u), has(idx.uuids, u)))
+//@ loop 2 invariant [all-disk-indexed] forallk(u, string, imp(has(uuids, u), has(idx.uuids, u)))
+//@ loop 2 invariant [indexed-on-disk] forallk(u, string, imp(has(idx.uuids, u) && visited(u), has(uuids, u) && uuids[u]))
+//@ modifies nothing
+//@ allocates Elem[interface{}], Elem[string], MapDom[string,bool], MapVal[string,bool], MapCard[string,bool], Elem[os.DirEntry], MapDom[string,FieldDescriptor], MapVal[string,FieldDescriptor], MapCard[string,FieldDescriptor], FieldDescriptor.Path, FieldDescriptor.Type, FieldDescriptor.Constraints
